@@ -14,6 +14,7 @@ Reading guide
 -/
 import EPV.Lemmas.SeqFunsLaws
 import EPV.Lemmas.SeqFunsLazy
+import EPV.Lemmas.SeqFunsMinMax
 namespace EPV.C08
 open EPV.Seq
 
@@ -128,6 +129,38 @@ strings / booleans / integers / decimals / doubles, NaN, FORG0006 for mixed kind
 `min`/`max` pick the same element as the specification's fold. -/
 theorem min_max_eq_spec (doc : List String) (isMax : Bool) (xs : Seq) :
     fnMinMax doc isMax xs = Spec.fnMinMax doc isMax xs := fnMinMax_eq doc isMax xs
+
+/-- PARTIAL in one hypothesis (monotone rounding, see `Spec.promotionMonotoneOn`).  fn:max / fn:min
+in the wording of F&O §14.4.3 / §14.4.4 for numeric values of which at least one is an xs:double
+and none is NaN: the code compares the exact values (Python compares int, Decimal and float
+exactly) and promotes the selected item; the result is an item of the sequence *converted to
+xs:double* such that no other converted item is greater (less) — provided the promotion is monotone on
+the values at hand.  That holds for every sequence of real doubles because IEEE rounding is monotone;
+this fact about the kernel function `rnd` is not proved: the hypothesis is decidable and the driver
+evaluates it on every fn:max / fn:min that the harness runs (answer field `m`). -/
+theorem min_max_fo_literal (isMax : Bool) (a : Atom) (rest : Seq)
+    (hout : Spec.outsideAgg (a :: rest) = false) (hnum : Spec.allKind .num (a :: rest) = true)
+    (hdbl : Spec.anyDouble (a :: rest) = true) (hnan : (a :: rest).any (· == Atom.dbl .nan) = false)
+    (hmono : Spec.promotionMonotoneOn (a :: rest) = true) :
+    ∃ r, minMaxCore isMax (a :: rest) = .ok [.dbl r] ∧ Spec.IsExtremeOfConverted isMax (a :: rest) r := by
+  rw [minMaxCore_eq isMax _ hout]
+  exact minMaxCore_fo_literal isMax a rest hout hnum hdbl hnan hmono
+
+set_option maxRecDepth 8000 in
+/-- the hypothesis holds on a non-trivial input: `(9007199254740993, 9007199254740992e0, 0.5)` —
+the integer 2^53 + 1 is rounded to 2^53 and ties with the double -/
+example : Spec.promotionMonotoneOn [.int 9007199254740993, .dbl (.fin 9007199254740992 0), .dec 5 1] = true := by
+  decide
+
+set_option maxRecDepth 8000 in
+/-- the hypothesis cannot be dropped for the type `D` as it stands: `D.fin (2^60 + 1) 0` is not a
+representable xs:double (the harness never produces one); with it the exact comparison and the
+comparison after promotion select different values -/
+example :
+    let s : Seq := [.int 1152921504606846977, .dbl (.fin 1152921504606846977 0)]
+    Spec.promotionMonotoneOn s = false ∧ minMaxCore true s = .ok [.dbl (.fin 1152921504606846976 0)] ∧
+      ¬ (∀ y ∈ s.map Spec.toDouble, D.lt (.fin 1152921504606846976 0) y = false) := by
+  decide
 
 /-- fn:string-join -/
 theorem string_join_eq_spec (doc : List String) (xs : Seq) (sep : Option Seq) :
